@@ -301,6 +301,43 @@ def random_history(ctx, rnd, tid, n, length, classes, p_save=0.0, variants=("can
     return {"id": tid, "n": n, "events": events}
 
 
+def long_history(ctx, rnd, tid, ncycles, save_at_end=True):
+    """Scale in TIME: hundreds of connect / disconnect cycles of one pair into a destination that also holds live links
+    before and behind the freed slots (slots are never reused), then save + load.  One event per batch of cycles."""
+    api, _, _ = _rv()
+    classes = simple_classes()[:4]
+    n = 5
+    p = make_project(n, rnd, classes)
+    events = []
+
+    def one(A, B):
+        out = request(p, "method", A, B, None, toggle=0)
+        events.append({"op": "connect", "via": "method", "A": A, "B": B, "outcome": out, "post": get_tables(p)})
+
+    def cycles(a, b, k):
+        out = "ok"
+        try:
+            for _ in range(k):
+                p.connect(p.modules[a], p.modules[b])
+                p.connect(~p.modules[a], p.modules[b])
+        except Exception as e:
+            out = "exception:" + type(e).__name__
+        events.append({"op": "cycles", "a": a, "b": b, "n": k, "outcome": out, "post": get_tables(p)})
+    one([{"m": 2, "neg": False}], [{"m": 1, "neg": False}])          # a live link in front
+    cycles(3, 1, ncycles // 2)
+    one([{"m": 4, "neg": False}], [{"m": 1, "neg": False}])          # a live link behind the freed slots
+    cycles(3, 1, ncycles - ncycles // 2)
+    one([{"m": 4, "neg": True}], [{"m": 1, "neg": False}])           # ... freed again: a long tail of freed slots
+    if save_at_end:
+        out, q = save_load(p, "canonical")
+        events.append({"op": "saveload", "variant": "canonical", "sub": [], "outcome": out if q is None else "ok",
+                       "post": get_tables(q) if q is not None and len(q.modules) == n else get_tables(p)})
+        if q is not None and len(q.modules) == n:
+            p = q
+            one([{"m": 3, "neg": False}], [{"m": 1, "neg": False}])
+    return {"id": tid, "n": n, "events": events}
+
+
 def corrupt(tr, rnd):
     """Canary: copy of a trace with one recorded table entry changed."""
     c = json.loads(json.dumps(tr))
